@@ -46,6 +46,11 @@ def check_choose(case):
     if names and names[-1] == '':
         names[-1] = 'NULL'
     I = 'v_idx' if case['var'] else lit(i)
+    if len(vals) >= 2 and 1 <= i <= len(vals) and (i + len(vals)) % 3 == 0:
+        # an error value sitting in a choice that is not the selected one does not matter
+        j = (i % len(vals))          # zero-based position of another choice
+        if j != i - 1:
+            names[j] = ['(1/0)', 'NA()', 'MATCH(9,{1,2,3},0)', '("q"+1)'][(i + j) % 4]
     f = 'CHOOSE(%s,%s)' % (I, ','.join(names))
     r = outcome(f, kw)
     if 1 <= i <= len(vals):
